@@ -19,6 +19,10 @@ extern crate rust_i18n;
 
 rust_i18n::i18n!("./locales", fallback = "en");
 
+/// verification hooks (add-only, compiled only under the verification cfg)
+#[cfg(emmyluals_emmylua_analyzer_rust_verif)]
+pub mod verif;
+
 pub fn set_locale(locale: &str) {
     rust_i18n::set_locale(locale);
 }
